@@ -921,6 +921,9 @@ func (s *Session) evalCall(se *SpecEnv, x *SCall) Val {
 			return scalar(types.NewPointer(s.resolveType(se.pkg, tn)), v.T0())
 		case "iter": // iter("Name", K, "k"|"n"|"stopped"): final position of a modelled iteration call
 			key := x.Args[0].(*SStr).V + "#" + x.Args[1].(*SNum).V
+			if x.Args[1].(*SNum).V == "0" {
+				key = x.Args[0].(*SStr).V + "#*" // a call inside an inlined callee
+			}
 			if se.fr == nil || se.fr.iters == nil {
 				specFail("iter(%s): no such iteration executed yet", key)
 			}
@@ -939,6 +942,9 @@ func (s *Session) evalCall(se *SpecEnv, x *SCall) Val {
 			specFail("iter: unknown component")
 		case "iterrank": // iterrank("Name", K): inverse of the ghost visit sequence
 			key := x.Args[0].(*SStr).V + "#" + x.Args[1].(*SNum).V
+			if x.Args[1].(*SNum).V == "0" {
+				key = x.Args[0].(*SStr).V + "#*"
+			}
 			if se.fr == nil || se.fr.iters == nil {
 				specFail("iterrank(%s): no such iteration executed yet", key)
 			}
@@ -949,6 +955,9 @@ func (s *Session) evalCall(se *SpecEnv, x *SCall) Val {
 			return Val{Typ: nil, L: []T{inf.rk}}
 		case "iterseq": // iterseq("Name", K): the ghost visit sequence (index it with [i], cast with ufcast)
 			key := x.Args[0].(*SStr).V + "#" + x.Args[1].(*SNum).V
+			if x.Args[1].(*SNum).V == "0" {
+				key = x.Args[0].(*SStr).V + "#*"
+			}
 			if se.fr == nil || se.fr.iters == nil {
 				specFail("iterseq(%s): no such iteration executed yet", key)
 			}
